@@ -494,6 +494,9 @@ func TestCorr(t *testing.T) {
 	// ---- BytesToHash of every proof type, split votes of field-near-miss proofs (nearmiss_test.go) ----
 	runNearMiss(t, run, r)
 
+	// ---- keeper level: AddMessageEvidence + CheckAndProcessAttestedMessages on the integration fixture (attest_test.go) ----
+	runAttested(t, run, r)
+
 	if err := run.Finish("Cons.Quorum Corr.C04", "C04.case", "C04.check"); err != nil {
 		t.Fatal(err)
 	}
